@@ -91,13 +91,32 @@ def run_one(n, fam, miss_a, miss_b, drift, offset, jit, linear):
         out.append(("missed-pairs", "%d pairs returned (distinct a: %d, b: %d) of %d true correspondences"
                     % (len(ia), len(set(ia.tolist())), len(set(ib.tolist())), ntrue)))
     # the map at held-out events (removed from a, so never seen by the fit) and at the kept ones
+    # ... inside the span of the events both sides hold (beyond it an interpolating map extrapolates from its last two points, which amplifies
+    # the 0.1 ms jitter by distance / spacing: the statement's tolerance is about the fitted range)
     held = np.array(sorted(miss_a)) if miss_a else np.array([], dtype=int)
-    inner = [i for i in held if ta[keep_a[0]] < ta[i] < ta[keep_a[-1]]]
-    test_t = np.r_[ta[inner], tsa] if len(inner) else tsa
-    test_true = np.r_[true_b[inner], true_b[keep_a]] if len(inner) else true_b[keep_a]
+    common = sorted(set(keep_a.tolist()) & set(keep_b.tolist()))
+    lo_t, hi_t = ta[common[0]], ta[common[-1]]
+    inner = [i for i in held if lo_t < ta[i] < hi_t]
+    kept_in = [i for i in keep_a.tolist() if lo_t <= ta[i] <= hi_t]
+    test_t = np.r_[ta[inner], ta[kept_in]] if len(inner) else ta[kept_in]
+    test_true = np.r_[true_b[inner], true_b[kept_in]] if len(inner) else true_b[kept_in]
     err = np.max(np.abs(np.asarray(fcn(test_t), dtype=float) - test_true))
     if not err <= 2e-3:
         out.append(("map-error", "fitted map is off by %.3g s at held-out/kept events" % err))
+    # events of side a beyond the span both sides hold: the map extrapolates there; an interpolating map does so from its two outermost points,
+    # which amplifies their 0.1 ms jitter by distance / spacing - allowed for, nothing more (a map that stops following the clock is off by seconds)
+    outer = [i for i in sorted(set(keep_a.tolist()) | set(held.tolist())) if not (lo_t <= ta[i] <= hi_t)]
+    if outer and len(common) >= 3:
+        for i in outer:
+            if ta[i] < lo_t:
+                dist, spacing = lo_t - ta[i], ta[common[1]] - ta[common[0]]
+            else:
+                dist, spacing = ta[i] - hi_t, ta[common[-1]] - ta[common[-2]]
+            allowed = 2e-3 + (4e-4 * dist / spacing if jit else 0.0) + 1e-6 * dist
+            e_i = abs(float(np.asarray(fcn(np.array([ta[i]])), dtype=float)[0]) - true_b[i])
+            if not e_i <= allowed:
+                out.append(("map-error:extrapolation", "fitted map is off by %.3g s at event %d, %.2f s beyond the span of the matched events (allowed %.3g s)" % (e_i, i, dist, allowed)))
+                break
     if not abs(drift_hat - drift) <= 5.0:
         out.append(("drift", "reported drift %.3f ppm, true %.3f ppm" % (drift_hat, drift)))
     return out
